@@ -10,7 +10,8 @@ HARNESS = os.path.join(VERIF, 'harness')
 ENV = dict(os.environ, CARGO_NET_OFFLINE='true')
 REPO = os.environ.get('VERIF_REPO') or '/repo'
 
-ROOTS = ["CircularBuffer::truncate_back", "CircularBuffer::truncate_front", "CircularBuffer::clear", "CircularBuffer::fill",
+ROOTS = ["CircularBuffer::push_back", "CircularBuffer::push_front", "CircularBuffer::try_push_back", "CircularBuffer::try_push_front",
+         "CircularBuffer::pop_back", "CircularBuffer::pop_front", "CircularBuffer::remove", "CircularBuffer::truncate_back", "CircularBuffer::truncate_front", "CircularBuffer::clear", "CircularBuffer::fill",
          "CircularBuffer::fill_spare", "CircularBuffer::fill_with", "CircularBuffer::fill_spare_with",
          "CircularBuffer::extend_from_slice", "Extend for CircularBuffer::extend", "FromIterator for CircularBuffer::from_iter",
          "Clone for CircularBuffer::clone", "Clone for CircularBuffer::clone_from", "From for CircularBuffer::from",
